@@ -28,7 +28,7 @@ func init() {
 			"{none, random skipper, observing parser, failing parser}; monitored: panics, calls until ErrNoMorePackets ≤ len(input)+64, 16 further calls, truncated-final-packet equivalence; " +
 			"distinct = hash(input, configuration); non-trivial = the input delivered at least one packet or datum before ending",
 		Assumptions: []string{"termination is judged on a logical bound (number of calls), a wall clock watchdog only covers calls that never return (then the goroutine dump must show a library frame)",
-			"explicit packet sizes ≥ 188; bufio readers sized ≥ 193 bytes"},
+			"explicit packet sizes ≥ 188; bufio readers with buffers from 16 bytes up"},
 		Shards:       32,
 		Journal:      true,
 		TimeoutQuick: 600,
